@@ -50,7 +50,7 @@ def _in_family(m, fi: FuncInfo) -> bool:
 def run(ctx: Ctx):
   m = model(ctx)
   eng = m.eng
-  for r in (r1, r2, r3, r4, r5, r6, r7, r8, r9, r10, r11, r13, r14, r16, r17, r18, r19, r20):
+  for r in (r1, r2, r3, r4, r5, r6, r7, r8, r9, r10, r11, r13, r14, r16, r17, r18, r19, r20, r21):
     ctx.guard(r, m)
   from mlmverif.props import c13
   ctx.include('R-C04-15', '"end-of-stream carrying all producers\' return values":'
@@ -1346,10 +1346,48 @@ def r14(ctx: Ctx, m):
 
 # ---------------------------------------------------------------------------
 # Self-validation corpus (edits of the current tree, applied in memory)
+def r21(ctx: Ctx, m):
+  rule = 'R-C04-21'
+  ctx.rule(rule, '"consumers get ... exactly one end-of-stream carrying all producers\' return values", the async consumers too: a'
+           ' StopIteration cannot be set on an asyncio Future (asyncio refuses it: the awaiting coroutine never wakes). Every'
+           ' blocking dequeue an async method hands to `run_in_executor` is therefore a module-level helper that translates'
+           ' StopIteration into StopAsyncIteration inside the worker thread — never the bound `get` / `get_batch` /'
+           ' `get_nowait` itself')
+  mi = ctx.repo.module('utils.iter_utils')
+  translating = {name for name, f in mi.functions.items() if any(
+      isinstance(h, ast.ExceptHandler) and h.type is not None and 'StopIteration' in unparse(h.type)
+      and any(isinstance(r_, ast.Raise) and r_.exc is not None and 'StopAsyncIteration' in unparse(r_.exc) for r_ in ast.walk(h))
+      for h in ast.walk(f.node))}
+  n = 0
+  for ci in mi.classes.values():
+    for name, fi in ci.methods.items():
+      for c in ast.walk(fi.node):
+        if not (isinstance(c, ast.Call) and isinstance(c.func, ast.Attribute) and c.func.attr == 'run_in_executor' and len(c.args) >= 2):
+          continue
+        fn = c.args[1]
+        txt = unparse(fn)
+        raw = isinstance(fn, ast.Attribute) and fn.attr in ('get', 'get_batch', 'get_nowait', '__next__')
+        is_dequeue = raw or (isinstance(fn, ast.Name) and 'get' in fn.id)
+        if not is_dequeue:
+          continue
+        n += 1
+        what = f'{ci.name}.{name}: the dequeue run in the executor translates the end of the stream'
+        if raw or (isinstance(fn, ast.Name) and fn.id not in translating):
+          ctx.fail(rule, fi, what,
+                   f'`{unparse(c)[:80]}` runs `{txt}` in the executor as is: at end-of-stream it raises StopIteration, which asyncio'
+                   ' cannot deliver through the Future — every coroutine awaiting this call at the end of the stream hangs and'
+                   ' never receives the return values', node=c)
+        else:
+          ctx.ok(rule, fi, what, c)
+  ctx.floor(rule, 2, n)
+
+
 from mlmverif.selfcheck import B, OK  # noqa: E402
 
 _F = 'utils/iter_utils.py'
 VARIANTS = [
+    B('async-get-runs-the-bound-get', 'utils/iter_utils.py',
+      "    return await loop.run_in_executor(self._thread_pool, _async_get, self)", "    return await loop.run_in_executor(self._thread_pool, self.get)", 'R-C04-21'),
     B('full-signal-constant-names-the-wrong-asyncio-exception', _F,
       '_IGNORE_ERROR_TYPES = (ValueError, TypeError)', '_IGNORE_ERROR_TYPES = (ValueError, TypeError)\n_QUEUE_FULL = (queue.Full, asyncio.QueueEmpty)', 'R-C04-16',
       extra=((_F, '        except (queue.Full, asyncio.QueueFull) as e:\n          logging.debug(\'chainable: %s\', f\'"{self.name}" enqueue full, waiting\')',
